@@ -37,7 +37,9 @@ def relabel_nodes(
         distance_to_term = 0
     types_this_way = defaultdict(lambda: [])
     types_this_way[type(i)] = [i]
-    if is_terminal(type(i), non_terminals) and (not isinstance(i, list)):
+    # lists and tuples are containers: their elements are the children of the enclosing node
+    is_container = isinstance(i, (list, tuple))
+    if is_terminal(type(i), non_terminals) and (not is_container):
         if not is_builtin(type(i)):
             i.gengy_labeled = True
             i.gengy_distance_to_term = int(g.expansion_depthing)
@@ -53,21 +55,22 @@ def relabel_nodes(
     else:
         if hasattr(i, "gengy_init_values"):
             children = [(typ[1], i.gengy_init_values[idx]) for idx, typ in enumerate(get_arguments(i))]
-        elif isinstance(i, list):
+        elif is_container:
             children = [(type(obj), obj) for obj in i]
         else:
             assert False
 
         for t, c in children:
+            child_is_container = isinstance(c, (list, tuple))
             nodes, dist, thisway, weighted_nodes = relabel_nodes(
                 c,
                 g,
-                isinstance(c, list),
+                child_is_container,
             )
             abs_adjust = 0 if not is_abstract(t) or not g.expansion_depthing else g.abstract_dist_to_t[t][type(c)]
-            if isinstance(c, list) and g.expansion_depthing:
+            if child_is_container and g.expansion_depthing:
                 abs_adjust = 1
-            list_adjust = 0 if isinstance(c, list) else 1
+            list_adjust = 0 if child_is_container else 1
             number_of_nodes += abs_adjust + nodes
             weighted_number_of_nodes += weighted_nodes
             distance_to_term = max(distance_to_term, dist + abs_adjust + list_adjust)
@@ -77,11 +80,12 @@ def relabel_nodes(
     if not is_list:
         weighted_number_of_nodes += distance_to_term
 
-    i.gengy_labeled = True
-    i.gengy_distance_to_term = distance_to_term
-    i.gengy_nodes = number_of_nodes
-    i.gengy_weighted_nodes = weighted_number_of_nodes
-    i.gengy_types_this_way = types_this_way
+    if not isinstance(i, tuple):  # a tuple cannot carry attributes; its elements are labelled
+        i.gengy_labeled = True
+        i.gengy_distance_to_term = distance_to_term
+        i.gengy_nodes = number_of_nodes
+        i.gengy_weighted_nodes = weighted_number_of_nodes
+        i.gengy_types_this_way = types_this_way
     return number_of_nodes, distance_to_term, types_this_way, weighted_number_of_nodes
 
 
